@@ -81,3 +81,30 @@ UNMODELLED = ("sscanf", "__isoc99_sscanf", "__isoc23_sscanf", "vsscanf", "__isoc
               "setlocale", "uselocale", "scanf", "fscanf", "__isoc23_strtod", "__strtod_internal")
 # seen through the seam
 MODELLED = ("strtod", "strtof", "strtold", "atof", "localeconv")
+
+
+def build_comma_locale():
+    """Compile a minimal real locale `xx_XX` whose LC_NUMERIC decimal point is ',' (none is
+    installed in the image; localedef works with a hand-written ASCII charmap).  Returns the
+    LOCPATH directory, or None when localedef cannot do it (then only the seam is used)."""
+    root = os.path.join(build.build_root(), "locales")
+    out = os.path.join(root, "xx_XX")
+    with build.lock("c18-locale"):
+        if os.path.exists(os.path.join(out, "LC_NUMERIC")):
+            return root
+        os.makedirs(root, exist_ok=True)
+        cm = os.path.join(root, "ASCII.cm")
+        src = os.path.join(root, "xx_XX.src")
+        with open(cm, "w") as f:
+            f.write("<code_set_name> ANSI_X3.4-1968\n<comment_char> %\n<escape_char> /\n"
+                    "<mb_cur_min> 1\n<mb_cur_max> 1\nCHARMAP\n")
+            for i in range(128):
+                f.write("<U%04X>     /x%02x         CH%d\n" % (i, i, i))
+            f.write("END CHARMAP\n")
+        with open(src, "w") as f:
+            f.write('LC_NUMERIC\ndecimal_point ","\nthousands_sep "."\ngrouping -1\nEND LC_NUMERIC\n')
+        subprocess.run(["localedef", "-c", "-f", cm, "-i", src, out],
+                       stdout=subprocess.PIPE, stderr=subprocess.STDOUT, text=True)
+        if not os.path.exists(os.path.join(out, "LC_NUMERIC")):
+            return None
+    return root
